@@ -43,6 +43,12 @@ pub struct BitMachine {
     write: Vec<Frame>,
     /// Acceptable source type
     source_ty: Arc<Final>,
+    /// High-water mark of `next_frame_start` (verification hook)
+    #[cfg(feature = "verif-hooks")]
+    verif_max_cells: usize,
+    /// High-water mark of `read.len() + write.len()` (verification hook)
+    #[cfg(feature = "verif-hooks")]
+    verif_max_frames: usize,
 }
 
 impl BitMachine {
@@ -57,7 +63,39 @@ impl BitMachine {
             read: Vec::with_capacity(program.bounds().extra_frames + analysis::IO_EXTRA_FRAMES),
             write: Vec::with_capacity(program.bounds().extra_frames + analysis::IO_EXTRA_FRAMES),
             source_ty: program.arrow().source.clone(),
+            #[cfg(feature = "verif-hooks")]
+            verif_max_cells: 0,
+            #[cfg(feature = "verif-hooks")]
+            verif_max_frames: 0,
         })
+    }
+
+    /// Verification hook: highest value `next_frame_start` has taken so far.
+    #[cfg(feature = "verif-hooks")]
+    pub fn verif_max_cells(&self) -> usize {
+        self.verif_max_cells
+    }
+
+    /// Verification hook: highest value of `read.len() + write.len()` so far.
+    #[cfg(feature = "verif-hooks")]
+    pub fn verif_max_frames(&self) -> usize {
+        self.verif_max_frames
+    }
+
+    /// Verification hook: size of the data buffer in bits and capacity of the
+    /// read frame stack, as allocated by [`Self::for_program`].
+    #[cfg(feature = "verif-hooks")]
+    pub fn verif_capacity(&self) -> (usize, usize) {
+        (self.data.len() * 8, self.read.capacity())
+    }
+
+    /// Verification hook: overwrite the data buffer with arbitrary bytes, to
+    /// model a machine whose memory holds leftovers of earlier frames.
+    #[cfg(feature = "verif-hooks")]
+    pub fn verif_fill_data(&mut self, mut f: impl FnMut(usize) -> u8) {
+        for (i, b) in self.data.iter_mut().enumerate() {
+            *b = f(i);
+        }
     }
 
     #[cfg(test)]
@@ -89,6 +127,13 @@ impl BitMachine {
 
         self.write.push(Frame::new(self.next_frame_start, len));
         self.next_frame_start += len;
+        #[cfg(feature = "verif-hooks")]
+        {
+            self.verif_max_cells = self.verif_max_cells.max(self.next_frame_start);
+            self.verif_max_frames = self
+                .verif_max_frames
+                .max(self.read.len() + self.write.len());
+        }
     }
 
     /// Move the active write frame to the read frame stack
